@@ -109,7 +109,9 @@ func runC07(c *Ctx) {
 						}
 						unchangedExpected := jsonOf(w.M.Objs) == mKey && len(w.M.Objs) == mBefore
 						after := w.Observe(opt, ord)
-						if unchangedExpected && op.Op == "many" {
+						// (a batch that re-saves objects with their own values succeeds and changes no value:
+						// that is not a failed batch, and it may legitimately move ties inside an index)
+						if unchangedExpected && op.Op == "many" && (w.LastClass != eOK || len(op.Batch) == 0) {
 							// a failed (or empty) batch: nothing changes
 							if before != after {
 								w.fail("failed-batch-visible|"+diffKind(before, after), "a batch that stored nothing changed observable state:\n"+firstDiff(before, after))
